@@ -27,7 +27,7 @@
 (* TLC checks WFProg and TypesOK for every program of a batch before it      *)
 (* executes it (MiniC.tla), so the generator cannot silently leave the       *)
 (* format, and the types it wrote on the nodes are re-derived here.          *)
-(* The core (all programs of CorePrograms) is enumerated by TLC itself and   *)
+(* The core (ProgGenCore.tla, CorePrograms) is enumerated by TLC itself and      *)
 (* written as trees; Python only numbers the nodes.                          *)
 (***************************************************************************)
 EXTENDS MiniCTypes, FiniteSets, TLC
@@ -129,41 +129,4 @@ WFProg(p) ==
         /\ f.ret \in IntTypes \cup {"void"}
   /\ \A id \in 1..Len(p.nodes) : WFNode(p, id)
 
------------------------------------------------------------------------------
-(* The exhaustive core: int f(int a) { int x;  x = P;  S1;  [S2;]  return x; } *)
-(* over the two variables a (parameter, variable 1) and x (local, variable 2)  *)
-(* and the constants 0, 1, 3.  Programs are written as trees (children        *)
-(* nested instead of referenced).                                             *)
-Num(v)         == [k |-> "num", v |-> v]
-Var(x)         == [k |-> "var", v |-> x]
-Un(op, e)      == [k |-> "un", op |-> op, a |-> e]
-Bin(op, l, r)  == [k |-> "bin", op |-> op, a |-> l, b |-> r]
-Asg(op, l, r)  == [k |-> "asg", op |-> op, a |-> l, b |-> r]
-Inc(op, pre, l) == [k |-> "inc", op |-> op, v |-> pre, a |-> l]
-SExpr(e)       == [k |-> "expr", a |-> e]
-Block(ss)      == [k |-> "block", ss |-> ss]
-IfS(c, s)      == [k |-> "if", a |-> c, b |-> Block(<<s>>)]
-WhileS(c, s)   == [k |-> "while", a |-> c, b |-> Block(<<s>>)]
-Ret(e)         == [k |-> "ret", a |-> e]
-
-A == Var(1)
-X == Var(2)
-CoreTerms == {A, X, Num(0), Num(1), Num(3), Bin("+", X, Num(1)), Bin("+", A, Num(1)), Bin("-", A, X), Bin("*", X, Num(3)),
-              Bin("&", A, Num(1)), Bin("+", X, A), Un("-", A)}
-CoreConds == {Bin("<", A, Num(1)), Bin("==", A, Num(3)), Bin("<", X, A), Bin("==", X, Num(0)), Bin("!=", X, A), A,
-              Un("!", X), Bin(">", X, Num(1))}
-CoreStmts ==
-       {SExpr(Asg("=", v, t)) : v \in {A, X}, t \in CoreTerms}
-  \cup {SExpr(Inc(op, 0, v)) : op \in {"++", "--"}, v \in {A, X}}
-  \cup {SExpr(Asg("+=", X, A)), SExpr(Asg("-=", A, Num(1)))}
-  \cup {IfS(c, SExpr(Asg("=", X, t))) : c \in CoreConds, t \in {Num(0), Num(3), A, Bin("+", X, Num(1))}}
-  \cup {IfS(c, Ret(t)) : c \in {Bin("<", A, Num(1)), Bin("==", X, Num(0)), Bin("<", X, A), A}, t \in {X, Num(1)}}
-  \cup {WhileS(Bin("<", X, Num(3)), SExpr(Inc("++", 0, X))), WhileS(Bin("<", X, Bin("&", A, Num(3))), SExpr(Inc("++", 1, X)))}
-CorePrologues == {Num(0), A}
-
-CoreBodies == {<<s>> : s \in CoreStmts} \cup {<<s1, s2>> : s1 \in CoreStmts, s2 \in CoreStmts}
-
-CoreProgram(pro, body) == Block(<<SExpr(Asg("=", X, pro))>> \o body \o <<Ret(X)>>)
-
-CorePrograms == {CoreProgram(pro, b) : pro \in CorePrologues, b \in CoreBodies}
 =============================================================================
